@@ -1,6 +1,7 @@
 """C12 — rate limits bound bytes transferred: proof obligations + correspondence + property oracle."""
 import hashlib
 import json
+import os
 import re
 
 import ltv
@@ -92,6 +93,8 @@ def oracle(case, line):
             break
         op = ops[i]
         where = "after op %d (%s)" % (i, " ".join(op))
+        if not 100000 <= st["iv"] <= 1000000:
+            bad.append(("tick-interval", "calculate_interval() = %d us is outside [0.1 s, 1 s] %s" % (st["iv"], where)))
         if st["stray"]:
             bad.append(("stray-quota", "a node outside the list holds quota " + where))
         for li, L in enumerate(st["lists"]):
@@ -130,6 +133,16 @@ def oracle(case, line):
                         bad.append(("quota-created", "held quota changed by deactivate " + where))
                 elif held(L) > held(P):
                     bad.append(("quota-created", "held quota grew without a tick: %d -> %d %s" % (held(P), held(L), where)))
+            # limit removed: every connection parked in an inactive queue must be woken (its activate slot run),
+            # otherwise it stays out of the poll set although nothing limits it any more
+            if k == "R" and int(op[1]) == 0 and prev["lists"][0]["e"] and not st["lists"][0]["e"] and out.startswith("act="):
+                woken = set(tuple(int(v) for v in a.split(":")) for a in out[4:].split(",") if a)
+                for li, P in enumerate(prev["lists"]):
+                    miss = [kq[0] for kq in P["I"] if (li, kq[0]) not in woken]
+                    if miss:
+                        bad.append(("unlimited-not-woken", "limit removed but deactivated connection(s) %s of list %d were not activated: "
+                                    "they stay held back with no limit in force %s" % (miss, li, where)))
+                        break
             grant = None
             if k == "T":
                 grant = (st["now"] - prev["lt"]) * prev["rate"] // 10**6
@@ -338,8 +351,66 @@ def run_session(rep, tier, seed):
     return tot
 
 
+PROJ_RE = re.compile(r" (?:rs|iv)=\d+")
+
+
+def project(line):
+    """What is compared between model and implementation: everything on the quota path. Rate's averaged
+    value (rs=) and calculate_interval (iv=) are statistics / tick scheduling, which the unit-level ops do not
+    read (ticks are driven by T ops); iv is checked against its proved bounds by the oracle instead."""
+    return PROJ_RE.sub("", line)
+
+
+POLICY_V = os.path.join(ltv.COQ, "C12", "PolicyGen.v")
+
+
+def probe_policy(impl, rates):
+    """Constants and chunk-size policy of the code under test, probed from the compiled code."""
+    out, err, rc = ltv.run_lines(impl, [" ".join(str(r) for r in rates)], args=["--params"], timeout=120)
+    if rc != 0 or len(out) != 1 or " | " not in out[0]:
+        raise ltv.BuildError("c12 --params failed: %s %s" % (out[:1], err[-500:]))
+    head, _, tail = out[0].partition(" | ")
+    consts = dict((k, int(v)) for k, v in (t.split("=") for t in head.split()))
+    pol = [tuple(int(v) for v in t.split(":")) for t in tail.split()]
+    return consts, pol
+
+
+def policy_text(consts, pol):
+    ent = "; ".join("(%d%%N, (%d%%N, %d%%N))" % p for p in pol)
+    return ("(* GENERATED by props/c12.py from `harness/c12.cc --params` (values PROBED from the compiled code under\n"
+            "   test on every run; no source text involved). Do not edit. *)\n"
+            "From Coq Require Import NArith List.\nImport ListNotations.\nModule Policy.\n\n"
+            "Definition chunk_probe : list (N * (N * N)) := [%s].\n"
+            "Definition list_min_init : N := %d%%N.\nDefinition list_max_init : N := %d%%N.\n"
+            "Definition fraction_bits : N := %d%%N.\nDefinition tick_min_us : N := %d%%N.\n"
+            "Definition rate_bytes_shift : N := %d%%N.\nDefinition rate_cur_shift : N := %d%%N.\n\nEnd Policy.\n" % (
+                ent, consts["list_min"], consts["list_max"], consts["fraction_bits"], consts["tick_min_us"],
+                consts["rate_bytes_shift"], consts["rate_cur_shift"]))
+
+
+def write_policy(txt):
+    old = open(POLICY_V).read() if os.path.exists(POLICY_V) else None
+    if old != txt:
+        with open(POLICY_V + ".tmp", "w") as f:
+            f.write(txt)
+        os.replace(POLICY_V + ".tmp", POLICY_V)
+
+
 def run(rep, tier, seed, replay):
+    # the implementation is built first: the model is run (and the theorems are re-checked) with the
+    # chunk-size policy and constants probed from it
+    impl = ltv.build_harness("c12", ["c12.cc"])
+    if replay and not json.load(open(replay))["case"].startswith("SESSION "):
+        pre_cases = [json.load(open(replay))["case"]]
+    else:
+        pre_cases = G.gen(seed, tier)[0]
+    consts, pol = probe_policy(impl, G.all_rates(pre_cases))
+    ptxt = policy_text(consts, pol)
+    write_policy(ptxt)
     coq = ltv.coq_build("C12")
+    if open(POLICY_V).read() != ptxt:        # a concurrent run on another tree rewrote it: once more
+        write_policy(ptxt)
+        coq = ltv.coq_build("C12")
     rep.cov.update(obligations=coq["obligations"], discharged=coq["discharged"], checker_cmd=coq["checker_cmd"],
                    theorems=coq["theorems"], axioms_per_theorem=coq["axioms"],
                    trusted_base=ltv.std_trusted_base(coq, [
@@ -352,7 +423,6 @@ def run(rep, tier, seed, replay):
                        "node_used/node_deactivate under a global upload limit, virtual clock): rate_bound_hierarchy and the "
                        "consumer accounting are evaluated on the real trace by python (not compared with the extracted model)"]))
     model = ltv.build_model("C12")
-    impl = ltv.build_harness("c12", ["c12.cc"])
     if replay and json.load(open(replay))["case"].startswith("SESSION "):
         impl_s = ltv.build_harness("c12s", ["c12s.cc", "common/session.cc"], libs=["-lcrypto"])
         c = json.load(open(replay))["case"][8:]
@@ -383,7 +453,7 @@ def run(rep, tier, seed, replay):
         if len(samples) < 4 and i % 499 == 7:
             samples.append({"case": case[:200], "impl": o[:300]})
         viol = oracle(case, o)
-        if m != o:
+        if project(m) != project(o):
             mism += 1
             if viol:
                 kl, text = viol[0]
@@ -392,7 +462,7 @@ def run(rep, tier, seed, replay):
             else:
                 # find the first differing op for the report
                 pm, pi = m.split(" ; "), o.split(" ; ")
-                j = next((j for j in range(min(len(pm), len(pi))) if pm[j] != pi[j]), min(len(pm), len(pi)))
+                j = next((j for j in range(min(len(pm), len(pi))) if project(pm[j]) != project(pi[j])), min(len(pm), len(pi)))
                 rep.violation("correspondence broken: model and implementation differ at op %d (property oracle holds on this trace)" % j,
                               case=case, model=(pm[j] if j < len(pm) else "<end>"), impl=(pi[j] if j < len(pi) else "<end>"),
                               theorem="correspondence C12 (throttle op trace)", found_input=False)
